@@ -82,9 +82,28 @@ class Sys(e2.DevSys):
             for ttl in self.cfg["offer_ttls"]:
                 acts.append(("offer", i, ttl))
             acts.append(("stopoffer", i))
+        if not any(e[2] == "restart" for e in self.events):
+            acts.append(("restart", -1))  # stop() and start() of the discovery part: the schedule begins again
         return acts
 
     def do(self, act):
+        if act[0] == "restart":
+            now = self.loop.time()
+            self.events.append((now, self.cur[1], "restart", -1, 0))
+            self.prot.discovery.stop()
+            self.prot.discovery.start()
+            # the old schedule ends here (a round whose timer is due in this very iteration is cancelled with its
+            # task, before or after the timer fired), a new one begins
+            r = self.loop._clock_resolution
+            self.rounds = [T for T in self.rounds if T < now - r]
+            self.restart_index = len(self.rounds)
+            nxt = now + self.d
+            self.rounds.append(nxt)
+            for i in range(self.cfg["reps"]):
+                nxt += self.cfg["base"] * (2 ** i)
+                self.rounds.append(nxt)
+            self.tail = max(self.tail, self.rounds[-1] - now + 0.5)
+            return
         if act[0] == "watch":
             # a filter added while the find task is running: it is searched from the next round on
             f = filters(self.s, self.s2)[act[1]]
@@ -110,6 +129,8 @@ class Sys(e2.DevSys):
             before = t < T - r or abs(t - T) < r
             if not before:
                 continue
+            if kind == "restart":
+                continue
             if kind == "watch":
                 watched.append(filters(self.s, self.s2)[i])
                 continue
@@ -127,16 +148,22 @@ class Sys(e2.DevSys):
             return
         horizon = self.loop.time()
         want = []
-        for T in self.rounds:
+        ended = False  # the current task has found everything at one of its rounds and ended
+        for n, T in enumerate(self.rounds):
             if T > horizon:
                 break
+            if n == getattr(self, "restart_index", None):
+                ended = False  # a fresh task
+            if ended:
+                continue
             live = self.live_at(T)
             r_ = self.loop._clock_resolution
             watched = list(self.watched) + [filters(self.s, self.s2)[e[3]] for e in self.events
                                             if e[2] == "watch" and (e[0] < T - r_ or abs(e[0] - T) < r_)]
             ents = sorted(f for f in watched if not any(fmatch(f, self.svcs[i]) for i in live))
             if not ents:
-                break  # everything found at a round instant: the task ends for good
+                ended = True  # everything found at a round instant: the task ends (until a restart)
+                continue
             want.append((T, ents))
         got = []
         for t, it, data, addr in self.prot.transport.sent:
